@@ -83,6 +83,11 @@ def _has_unknown(v, depth=0):
     return False
 
 
+class LocalFunc:
+    def __init__(self, node, env):
+        self.node, self.env = node, env
+
+
 class BoundMethod:
     def __init__(self, me, dc, m):
         self.me, self.dc, self.m = me, dc, m
@@ -128,6 +133,11 @@ def codec_apply(ctx, ci, meth, args):
     raise _Raise("DataError")
 
 
+class _Buffer:
+    def __init__(self, n):
+        self.nbytes = n
+
+
 class Stream:
     """Witness for io.BytesIO."""
 
@@ -146,6 +156,9 @@ class Stream:
 
     def getvalue(self):
         return self.data
+
+    def getbuffer(self):
+        return _Buffer(len(self.data))
 
 
 class Obj:
@@ -370,6 +383,8 @@ class Interp:
             base = self.ev(e.value, env, depth)
             if isinstance(base, Obj):
                 return self._obj_attr(base, e.attr, depth)
+            if isinstance(base, _Buffer):
+                return getattr(base, e.attr)
         if isinstance(e, ast.Attribute) and e.attr in ("decode", "encode") and not self._mentions_obj(e.value, env):
             recv = self.ctx.folder.eval(e.value, self.module, env=env)
             if isinstance(recv, ClassRef):
@@ -439,6 +454,26 @@ class Interp:
             r = self._method_call(e, env, depth)
             if r is not UNKNOWN:
                 return r
+            if isinstance(e.func, ast.Name) and isinstance(env.get(e.func.id), LocalFunc):
+                lf = env[e.func.id]
+                if self.oo_depth > 24:
+                    raise _Unknown("nested helper recursion too deep")
+                args, kwargs = self._call_args(e, env, depth)
+                params = [a.arg for a in lf.node.args.args]
+                env2 = dict(lf.env)
+                if len(args) > len(params):
+                    raise TypeError("too many positional arguments")
+                env2.update(zip(params, args))
+                env2.update(kwargs)
+                defaults = lf.node.args.defaults
+                for p_, d_ in zip(params[len(params) - len(defaults):], defaults):
+                    if p_ not in dict(zip(params, args)) and p_ not in kwargs:
+                        env2[p_] = self.ev(d_, lf.env, depth)
+                self.oo_depth += 1
+                try:
+                    return self.call(lf.node, env2, depth)
+                finally:
+                    self.oo_depth -= 1
             if self.me is not None and isinstance(e.func, ast.Name) and not self._mentions_obj(e.func, env):
                 callee = self.ctx.folder.eval(e.func, self.module, env={k: v_ for k, v_ in env.items() if not isinstance(v_, (Obj, Stream, Bound))})
                 if isinstance(callee, ClassRef) and "__init__" in {n for k in callee.ci.mro() for n in k.methods} and not _is_data_type(callee.ci):
@@ -490,7 +525,7 @@ class Interp:
             if r_ is not UNKNOWN:
                 return r_
         if isinstance(e, ast.Call) and isinstance(e.func, ast.Attribute):
-            if isinstance(e.func.value, ast.Name) and isinstance(env.get(e.func.value.id), Stream) and e.func.attr in ("read", "tell", "getvalue"):
+            if isinstance(e.func.value, ast.Name) and isinstance(env.get(e.func.value.id), Stream) and e.func.attr in ("read", "tell", "getvalue", "getbuffer"):
                 args = [self.ev(a, env, depth) for a in e.args]
                 return getattr(env[e.func.value.id], e.func.attr)(*args)
             if e.func.attr in ("decode", "encode") and len(e.args) == 1 and not e.keywords:
@@ -739,6 +774,8 @@ class Interp:
                 self.effect(st.value, env, depth)
             elif isinstance(st, ast.Pass):
                 return
+            elif isinstance(st, ast.FunctionDef) and not st.decorator_list:
+                env[st.name] = LocalFunc(st, env)  # a nested helper: called with the enclosing bindings visible
             elif isinstance(st, ast.Assign):
                 v = self.ev(st.value, env, depth)
                 for t in st.targets:
